@@ -56,7 +56,11 @@ def busy_answer_rules(ck, C):
             for i, j, st in b.statements():
                 if st["s"] == "assign" and st["pl"]["l"] in T.ret_locals(b) and st["rv"]["r"] == "agg" and st["rv"].get("variant") == "Ok" and not b.is_cleanup(i):
                     v = st["rv"]["fields"][0]
-                    if T.const_value(b, v, 8) == 0:
+                    from props import common as _cm
+
+                    bv = _cm.busy_value(ck.facts, q.rsplit("::", 1)[1])
+                    pv = _cm.payload_value(b, v)
+                    if (bv is not None and pv == bv) or (bv is None and T.const_value(b, v, 8) == 0):
                         if err_e and T.reachable_only_via(b, i, err_e):
                             ok = True
                         else:
